@@ -21,6 +21,10 @@ for sid in sys.argv[1:]:
         rep[sid] = {"applies": False}; continue
     sh("git -C /repo apply %s" % patch)
     try:
+        base = None
+        if os.environ.get("BASELINE"):
+            rcb, outb = sh(os.path.join(V, "bin/baseline.sh"))
+            base = outb.strip().splitlines()[-1] if outb.strip() else "?"
         rc, out = sh("%s %s --tier quick" % (os.path.join(V, "bin/check"), prop), cwd=V,
                      env=dict(os.environ, VERIF_EVIDENCE_DIR=os.path.join(V, "build", "evidence_seeded")))
         viol = [l for l in out.splitlines() if l.startswith("VIOLATION")]
@@ -34,7 +38,8 @@ for sid in sys.argv[1:]:
                         lemmas.append("%s:%s" % (u["detail"].get("file"), u["detail"].get("lemma")))
                     elif u.get("what") not in ("theorem", "examples"):
                         lemmas.append(u.get("what"))
-        rep[sid] = {"applies": True, "exit": rc, "concrete": len(concrete) > 0, "broken_obligations": sorted(set(lemmas))}
+        rep[sid] = {"applies": True, "exit": rc, "concrete": len(concrete) > 0, "broken_obligations": sorted(set(lemmas)), "baseline": base,
+                    "lines": [l[:300] for l in out.splitlines() if l.startswith(("VIOLATION", "  ", "OK"))][:4]}
     finally:
         sh("git -C /repo checkout -- .")
     print(sid, rep[sid], flush=True)
